@@ -194,7 +194,7 @@ def golden_ops(dname, kinds):
     if "text" in kinds and "jitonly" not in r.tags:
         ops.append(["compile", "s0", None])
         ops.append(["compile", "s0", "numba"])
-    if "cli" in kinds and "jitonly" not in r.tags and not r.jit_kwargs:
+    if "cli" in kinds and "jitonly" not in r.tags and not r.jit_kwargs and "nocli" not in r.tags:
         ops.append(["cli", dname, None])
     if "jit" in kinds:
         ops.append(["jitname", "s0"])
@@ -376,7 +376,7 @@ def gen_history(seed, mode, thorough, hashseed):
                     ops.append(["compile", s, None])
                 elif c < 0.75:
                     ops.append(["compile", s, "numba"])
-                elif c < 0.85 and not rq.jit_kwargs:
+                elif c < 0.85 and not rq.jit_kwargs and "nocli" not in rq.tags:
                     ops.append(["cli", dn, None])
                     for k, v in own(dn).items():
                         cnt[k] += v
